@@ -89,6 +89,19 @@ func (c *Ctx) unmodelledConstruct(root *ssa.Function) string {
 						elem = t.Elem()
 					}
 					if elem == nil {
+						// a package-level object of a library struct type that carries behaviour
+						// (an encoding, a function): a codec or strategy value shared by the functions
+						if n, isN := g.Type().Underlying().(*types.Pointer).Elem().(*types.Named); isN && n.Obj().Pkg() != nil && strings.HasPrefix(n.Obj().Pkg().Path(), M) {
+							if st, isS := n.Underlying().(*types.Struct); isS {
+								for k := 0; k < st.NumFields(); k++ {
+									switch st.Field(k).Type().Underlying().(type) {
+									case *types.Interface, *types.Signature:
+										why = "the package-level object " + g.Name() + " (" + n.Obj().Name() + ", carrying an interface or function value) is used in " + name(f)
+										return
+									}
+								}
+							}
+						}
 						continue
 					}
 					if p, isP := elem.Underlying().(*types.Pointer); isP {
